@@ -141,3 +141,40 @@ def run(F, R):
             R.check(not extra, "R28.6", "StartFetch:decided-from-keys-only", "%s:%s" % (b.file, line), "guards read Requests.%s" % sorted(used),
                     "the decision to arm the fetch timer reads Requests.%s besides `keys`: state that is not the queue itself can go stale and leave a non-empty queue without a timer" % sorted(extra))
     R.floor("R28.6", "StartFetch decision sites", n6, 1)
+
+    R.rule("R28.7", "a batch does not depend on the caller that triggered it: load_many never runs DataLoaderInner::do_load in its own future — every do_load call sits in "
+                    "an async block handed to Spawner::spawn (if the triggering caller is cancelled, the other waiters of the batch are still answered); and each "
+                    "waiter receives exactly the loader values of its own keys (values.get(key) per requested key, never the loader's map wholesale)")
+    n7 = 0
+    for b in cos:
+        if not b.owner.endswith("::load_many"):
+            continue
+        for c in b.calls():
+            if c.callee and re.search(r"dataloader::\{impl#\d+\}::do_load$", c.callee):
+                n7 += 1
+                top = b.defp.count("{closure#") <= 1
+                # the body that calls do_load must be an async block created in load_many and passed (directly or via instrument) to spawn
+                parent = F.get(b.parent) if b.parent else None
+                spawned = False
+                if parent is not None and not top:
+                    for (cbb, cdef, st) in parent.closures_created():
+                        if cdef == b.defp:
+                            fw = forward(parent, st[0][0])[1]
+                            spawned = any((cc.declared or cc.callee or "").endswith("::spawn") or "spawn" in (cc.callee or "") for cc, i in fw)
+                R.check(spawned, "R28.7", "do_load-runs-in-a-spawned-task", c.where(), "do_load inside a spawned async block",
+                        "load_many awaits do_load in the caller's own future: cancelling that caller drops the whole batch and every other waiter's receiver is cancelled")
+    R.floor("R28.7", "do_load call sites under load_many", n7, 2)
+    dl_body = [b for b in cos if b.owner.endswith("::do_load")]
+    for b in dl_body:
+        whole = [c for c in b.calls() if c.callee and re.search(r"hash::map::\{impl#\d+\}::(iter|into_iter|clone|keys|values)$|IntoIterator::into_iter$", c.declared or c.callee) and
+                 c.args and c.args[0][0] in ("c", "m") and any((b.local_name(l) or "") == "values" for l in [c.args[0][1][0]] + [d_[1][1][1][0] for d_ in b.defs_of_local(c.args[0][1][0]) if d_[1][1][0] == "ref"])]
+        # only inside the loop that answers the waiters (the cache-filling loop legitimately walks the whole result)
+        from common import sccs as _sccs
+        sends = [c.bb for c in b.calls() if c.callee and re.search(r"oneshot::\{impl#\d+\}::send$|::send$", c.callee)]
+        send_comps = [comp for comp in _sccs(b) if any(x in comp for x in sends)]
+        whole = [c for c in whole if any(c.bb in comp for comp in send_comps)]
+        if not sends:
+            continue  # the tracing wrapper around the real body
+        gets = [c for c in b.calls() if c.callee and re.search(r"hash::map::\{impl#\d+\}::get$", c.callee)]
+        R.check(bool(gets) and not whole, "R28.7", "do_load:per-key-lookup-only", b.where(), "%d values.get(key) lookups, no wholesale iteration of the loader result" % len(gets),
+                "do_load hands a waiter entries taken by iterating the loader's whole result: a request can receive values for keys it never asked for")
